@@ -202,6 +202,45 @@ def source_constants(ctx: Ctx):
     ctx.coverage["correspondence"]["constants"] = {"ci_env_vars": len(found or ())}
 
 
+# ---- which pyproject.toml decides: the one of pytest's rootdir (the project), never one found in the directory the session happens to be started from
+WS_TEST = "from inline_snapshot import snapshot\n\n\ndef test_a():\n    assert 11 == snapshot()\n    assert 22 == snapshot(20)\n"
+WS_CASES = [
+    # (name, default-flags of the workspace pyproject, default-flags of the project pyproject (None = key absent), categories that may be written)
+    ("workspace approves create,fix; the project has no default-flags", '["create", "fix"]', None, set()),
+    ("workspace approves fix; the project approves create", '["fix"]', '["create"]', {"create"}),
+    ("workspace has no default-flags; the project approves fix", None, '["fix"]', {"fix"}),
+]
+
+
+def run_workspace(item):
+    import shutil
+    (name, ws_flags, pkg_flags, allowed), start = item
+    outer = driver.scratch_dir("c04ws-")
+    try:
+        ws = outer / "ws"
+        tool = lambda fl: "[tool.inline-snapshot]\n" + (f"default-flags = {fl}\ndefault-flags-tui = {fl}\n" if fl else "")  # noqa
+        driver.write_project(ws, {"pyproject.toml": tool(ws_flags), "pkg/pyproject.toml": "[tool.pytest.ini_options]\nminversion = '6.0'\n\n" + tool(pkg_flags), "pkg/test_w.py": WS_TEST})
+        cwd, args = (ws, ["pkg"]) if start == "workspace" else (ws / "pkg", [])
+        r = driver.run_pytest(ws / "pkg", args, cwd=cwd)
+        after = (ws / "pkg" / "test_w.py").read_text()
+        return {"name": name, "start": start, "created": "snapshot(11)" in after, "fixed": "snapshot(22)" in after, "rc": r["rc"], "tail": (r["stdout"] + r["stderr"])[-800:], "infra": r.get("infra_error")}
+    finally:
+        shutil.rmtree(outer, ignore_errors=True)
+
+
+def check_workspace(ctx):
+    items = [(c, st) for c in WS_CASES for st in ("workspace", "project")]
+    for (c, st), o in zip(items, tmap(run_workspace, items)):
+        ctx.count(("workspace", c[0], st), True)
+        if o["infra"]:
+            continue
+        got = {k for k, v in (("create", o["created"]), ("fix", o["fixed"])) if v}
+        if got != c[3]:
+            ctx.report(f"C04 oracle (workspace layout `{c[0]}`, session started in the {st} directory): the project's own pyproject.toml approves {sorted(c[3]) or 'nothing'}, "
+                       f"but {sorted(got) or 'nothing'} was written", {"kind": "workspace", "name": c[0], "start": st, "output": o["tail"]})
+    ctx.coverage["oracle"]["workspace_sessions"] = len(items)
+
+
 def run(ctx: Ctx):
     ctx.coverage["rule"] = (
         "real pytest sessions on a project with one pending change in each of the four categories, a referenced and an unreferenced persisted external; configurations: "
@@ -228,6 +267,7 @@ def run(ctx: Ctx):
     from .. import sessloop
     sessloop.check_part(ctx, 36 if not ctx.thorough else 500, "C04")
     sessloop.check_nested(ctx, 24 if not ctx.thorough else 300, "C04")
+    check_workspace(ctx)
     outs = tmap(run_config, confs)
     terms, idx = [], []
     for i, (c, o) in enumerate(zip(confs, outs)):
@@ -282,6 +322,11 @@ def replay(ctx: Ctx, data):
     if isinstance(data.get("case"), dict) and data["case"].get("kind") == "sessloop":
         from .. import sessloop
         return sessloop.replay_case(data["case"])
+    if data["case"].get("kind") == "workspace":
+        c = [x for x in WS_CASES if x[0] == data["case"]["name"]][0]
+        o = run_workspace((c, data["case"]["start"]))
+        print(o)
+        return {k for k, v in (("create", o["created"]), ("fix", o["fixed"])) if v} == c[3]
     if data["case"].get("kind") in ("xfail", "xfail-stack"):
         from .. import xfailfam
         return xfailfam.replay(data["case"], "C04")
